@@ -40,14 +40,14 @@ def scenario_lines(header, events, obs):
         lines.append(e)
         lines.append("bc-state")
     mm = len(lines)
-    lines += ["mon-model-c06", "mon-model-c10"]
+    lines += ["mon-model-c06", "mon-model-c10", "mon-model-c06r"]
     lines.append("t-new %d %d %s" % (header[0], header[1], ",".join(header[2]) if header[2] else "-"))
     for e, ol in zip(events, obs):
         lines.append("t-ev " + e)
         for o in ol:
             lines.append("t-ob " + o)
     mi = len(lines)
-    lines += ["mon-c06", "mon-c10"]
+    lines += ["mon-c06", "mon-c10", "mon-c06r"]
     return lines, ev_idx, mm, mi
 
 
@@ -78,12 +78,14 @@ def compare_one(header, events, obs, states, got, base, ev_idx, mm, mi):
             if gs != [states[j]]:
                 out["dis"] = {"at": j, "event": e, "impl": [states[j]], "model": gs, "kind": "state"}
                 break
-    a, b = got[base + mm], got[base + mm + 1]
-    if out["dis"] is None and (a != ["ok"] or b != ["ok"]):
-        out["monmodel"] = {"c06": a, "c10": b}
-    c6, c10 = got[base + mi], got[base + mi + 1]
+    a, b, c = got[base + mm], got[base + mm + 1], got[base + mm + 2]
+    if out["dis"] is None and (a != ["ok"] or b != ["ok"] or c != ["ok"]):
+        out["monmodel"] = {"c06": a, "c10": b, "c06-routing": c}
+    c6, c10, c6r = got[base + mi], got[base + mi + 1], got[base + mi + 2]
     if c6 != ["ok"]:
         out["c06"] = c6
+    elif c6r != ["ok"]:
+        out["c06"] = ["routing " + c6r[0]]
     if c10 != ["ok"]:
         out["c10"] = c10
     return out
